@@ -142,7 +142,7 @@ var kindNames = []string{"Int64Counter", "Int64UpDownCounter", "Int64Histogram",
 
 func isObservable(kind int) bool { return kind >= 8 }
 
-type scopeID struct{ name, version, schema string }
+type scopeID struct{ name, version, schema, attr string } // attr: value of the instrumentation attribute "tenant"
 
 type inst struct {
 	id, kind, meter int
@@ -323,22 +323,32 @@ func scopeFor(prefix string, k int, opt bool) scopeID {
 	if !opt {
 		return scopeID{name: fmt.Sprintf("%s%d", prefix, k)}
 	}
-	return scopeID{name: fmt.Sprintf("%s%d", prefix, k), version: fmt.Sprintf("v%d", k), schema: fmt.Sprintf("https://example.invalid/s%d", k)}
+	return scopeID{name: fmt.Sprintf("%s%d", prefix, k), version: fmt.Sprintf("v%d", k), schema: fmt.Sprintf("https://example.invalid/s%d", k),
+		attr: fmt.Sprintf("a%d", k)}
 }
 
 // opMeter: key k; same >= 0: request the identity of key `same` again (the handle is kept under k);
 // opt: with version / schema URL / attribute options; via 1: through otel.Meter instead of the provider handle.
-func (w *world) opMeter(k, same int, opt bool, via int) {
+// alt >= 0: the identity of key `alt` except for the instrumentation ATTRIBUTES (a different tenant): a
+// distinct meter that must stay distinct.
+func (w *world) opMeter(k, same, alt int, opt bool, via int) {
 	w.mu.Lock()
 	sc, have := w.mscope[same]
+	asc, ahave := w.mscope[alt]
 	w.mu.Unlock()
 	if same < 0 || !have {
 		sc = scopeFor("m", k, opt)
 	}
+	if alt >= 0 && ahave {
+		sc = asc
+		sc.attr = fmt.Sprintf("alt%d", k)
+	}
 	var opts []metric.MeterOption
 	if sc.version != "" {
-		opts = []metric.MeterOption{metric.WithInstrumentationVersion(sc.version), metric.WithSchemaURL(sc.schema),
-			metric.WithInstrumentationAttributes(attribute.String("scope", sc.name))}
+		opts = append(opts, metric.WithInstrumentationVersion(sc.version), metric.WithSchemaURL(sc.schema))
+	}
+	if sc.attr != "" {
+		opts = append(opts, metric.WithInstrumentationAttributes(attribute.String("tenant", sc.attr)))
 	}
 	var m metric.Meter
 	if via == 1 {
@@ -531,17 +541,24 @@ func (w *world) opInstallTRaw() {
 	w.tinst.Store(true)
 }
 
-func (w *world) opTracer(t, same int, opt bool, via int) {
+func (w *world) opTracer(t, same, alt int, opt bool, via int) {
 	w.mu.Lock()
 	sc, have := w.tscope[same]
+	asc, ahave := w.tscope[alt]
 	w.mu.Unlock()
 	if same <= 0 || !have {
 		sc = scopeFor("t", t, opt)
 	}
+	if alt > 0 && ahave { // same name / version / schema URL as tracer `alt`, different attributes
+		sc = asc
+		sc.attr = fmt.Sprintf("alt%d", t)
+	}
 	var opts []trace.TracerOption
 	if sc.version != "" {
-		opts = []trace.TracerOption{trace.WithInstrumentationVersion(sc.version), trace.WithSchemaURL(sc.schema),
-			trace.WithInstrumentationAttributes(attribute.String("scope", sc.name))}
+		opts = append(opts, trace.WithInstrumentationVersion(sc.version), trace.WithSchemaURL(sc.schema))
+	}
+	if sc.attr != "" {
+		opts = append(opts, trace.WithInstrumentationAttributes(attribute.String("tenant", sc.attr)))
 	}
 	var tr trace.Tracer
 	if via == 1 {
